@@ -1422,6 +1422,253 @@ def section_round7(ctx, r, corr):
         corr.add(line, ordered(ss), site, prob.src() + call)
 
 
+
+# ------------------------------------------------------------------ section H: histories on ONE sampler object (r7d)
+
+HIST_STACKS = [
+    # (source, exact?, kwargs source)
+    ('dimod.ExactSolver()', True, ''),
+    ('dimod.RandomSampler()', False, 'num_reads=3, seed=5'),
+    ('dimod.SimulatedAnnealingSampler()', False, 'num_reads=2, num_sweeps=3'),
+    ('dimod.TruncateComposite(dimod.ExactSolver(), 3)', False, ''),
+    ('dimod.TrackingComposite(dimod.ExactSolver())', True, ''),
+    ('dimod.TrackingComposite(dimod.TruncateComposite(dimod.RandomSampler(), 2), copy=True)', False, 'num_reads=4'),
+    ('dimod.StructureComposite(dimod.ExactSolver(), NODES, EDGES)', True, ''),
+    ('dimod.NullSampler()', False, ''),
+]
+HIST_POLY_STACKS = [
+    ('dimod.ExactPolySolver()', True, ''),
+    ('dimod.HigherOrderComposite(dimod.ExactSolver())', False, ''),
+    ('dimod.PolyScaleComposite(dimod.ExactPolySolver())', True, 'scalar=.5'),
+    ('dimod.PolyTruncateComposite(dimod.ExactPolySolver(), 3)', False, ''),
+    ('dimod.PolyFixedVariableComposite(dimod.ExactPolySolver())', True, 'fixed_variables={}'),
+    ('dimod.PolySampler.sample_hising', None, ''),     # placeholder: entry chosen below
+]
+
+
+class _HistProb:
+    """the CURRENT input of a history step as the oracle sees it (plain dicts of Fractions)"""
+
+    def __init__(self, labels, lin, quad, off, spin):
+        self.labels, self.lin, self.quad, self.off, self.spin = list(labels), dict(lin), dict(quad), off, spin
+
+    def domain(self, v):
+        return (-1, 1) if self.spin else (0, 1)
+
+    def energy(self, x):
+        return self.off + sum(b * x[v] for v, b in self.lin.items()) + sum(b * x[u] * x[v] for (u, v), b in self.quad.items())
+
+
+def _hist_energy_src(prob):
+    return (f'LIN, QUAD, OFF = { {v: str(b) for v, b in prob.lin.items()}!r}, { {k: str(b) for k, b in prob.quad.items()}!r}, {str(prob.off)!r}\n'
+            'def energy(x):\n    return F(OFF) + sum(F(b) * x[v] for v, b in LIN.items()) + sum(F(b) * x[u] * x[v] for (u, v), b in QUAD.items())\n')
+
+
+def section_histories(ctx, r, corr):
+    """every entry point called several times on ONE sampler object, the input containers mutated IN PLACE between the calls
+    (a bias value, a key replaced by another with the same number of entries, an entry added); each call's rows are checked
+    against the CURRENT input.  Catches state kept on the sampler between calls (memoised conversions, stale structure, …)."""
+    labels_pool = ['a', 'b', 'c', 'z', 0, 1, 5]
+    for hi in range(ctx.scale(260, 4000)):
+        entry = r.choice(['sample_ising', 'sample_ising', 'sample_qubo', 'sample_qubo', 'sample', 'sample_ising-list'])
+        stack_src, exact, kwsrc = r.choice(HIST_STACKS)
+        n = r.randint(1, 4)
+        labels = list(range(n)) if entry == 'sample_ising-list' else r.sample(labels_pool, n)
+        pairs = [(u, v) for i, u in enumerate(labels) for v in labels[i + 1:] if r.random() < .7]
+        spin = entry.startswith('sample_ising') or (entry == 'sample' and r.random() < .5)
+        ns = {'dimod': dimod, 'np': np, 'F': F, 'NODES': labels_pool + ['q', 'w', 2, 3]}
+        lines = [f'NODES = {ns["NODES"]!r}', 'EDGES = [(u, v) for i, u in enumerate(NODES) for v in NODES[i + 1:]]', f'S = {stack_src}']
+        lin = {v: dy(r) for v in labels}
+        quad = {p: dy(r) for p in pairs}
+        off = F(0)
+        if entry == 'sample_ising':
+            lines += [f'h = { {v: float(b) for v, b in lin.items()}!r}', f'J = { {k: float(b) for k, b in quad.items()}!r}']
+            call = f'S.sample_ising(h, J{", " + kwsrc if kwsrc else ""})'
+        elif entry == 'sample_ising-list':
+            lines += [f'h = {[float(lin[v]) for v in labels]!r}', f'J = { {k: float(b) for k, b in quad.items()}!r}']
+            call = f'S.sample_ising(h, J{", " + kwsrc if kwsrc else ""})'
+        elif entry == 'sample_qubo':
+            lines += [f'Q = { {**{(v, v): float(b) for v, b in lin.items()}, **{k: float(b) for k, b in quad.items()}}!r}']
+            call = f'S.sample_qubo(Q{", " + kwsrc if kwsrc else ""})'
+        else:
+            off = dy(r)
+            lines += [f'bqm = dimod.BinaryQuadraticModel({ {v: float(b) for v, b in lin.items()}!r}, { {k: float(b) for k, b in quad.items()}!r}, {float(off)!r}, {"SPIN" if spin else "BINARY"!r})']
+            call = f'S.sample(bqm{", " + kwsrc if kwsrc else ""})'
+        pyrandom.seed(r.randrange(10 ** 6))
+        try:
+            for ln in lines:
+                exec(ln, ns)
+        except Exception as e:  # noqa
+            ctx.fail('property', stack_src, 'construction', f'{type(e).__name__}: {e}', repro=PRE + '\n'.join(lines) + '\n')
+            continue
+        nsteps = r.choice([2, 3, 3, 4])
+        for step in range(nsteps):
+            if step:
+                # ---- mutate the very same containers in place
+                kind = r.choice(['value', 'value', 'value', 'qvalue', 'swapkey', 'grow', 'offset'])
+                free = [x for x in labels_pool + ['q', 'w'] if x not in labels]
+                if kind == 'qvalue' and not quad:
+                    kind = 'value'
+                if kind in ('swapkey', 'grow') and (entry == 'sample_ising-list' or not free):
+                    kind = 'value'
+                if kind == 'offset' and entry != 'sample':
+                    kind = 'value'
+                if kind == 'value':
+                    v = r.choice(labels)
+                    nb = lin[v] + r.choice([F(1), F(-3, 2), F(5, 8), F(-7)])
+                    lin[v] = nb
+                    mut = {'sample_ising': f'h[{v!r}] = {float(nb)!r}', 'sample_ising-list': f'h[{v!r}] = {float(nb)!r}',
+                           'sample_qubo': f'Q[({v!r}, {v!r})] = {float(nb)!r}', 'sample': f'bqm.set_linear({v!r}, {float(nb)!r})'}[entry]
+                elif kind == 'qvalue':
+                    k = r.choice(list(quad))
+                    nb = quad[k] + r.choice([F(1), F(-3, 2), F(5, 8), F(-7)])
+                    quad[k] = nb
+                    mut = {'sample_ising': f'J[{k!r}] = {float(nb)!r}', 'sample_ising-list': f'J[{k!r}] = {float(nb)!r}',
+                           'sample_qubo': f'Q[{k!r}] = {float(nb)!r}', 'sample': f'bqm.set_quadratic({k[0]!r}, {k[1]!r}, {float(nb)!r})'}[entry]
+                elif kind == 'offset':
+                    off = off + F(3, 2)
+                    mut = f'bqm.offset = {float(off)!r}'
+                elif kind == 'swapkey':
+                    # one variable leaves, another comes: the same number of entries
+                    old, newv = r.choice(labels), r.choice(free)
+                    b = lin.pop(old)
+                    lin[newv] = b
+                    labels[labels.index(old)] = newv
+                    quad = {tuple(newv if x == old else x for x in k): bb for k, bb in quad.items()}
+                    if entry == 'sample_ising':
+                        mut = (f'h[{newv!r}] = h.pop({old!r})\nfor k in [k for k in J if {old!r} in k]: J[tuple({newv!r} if x == {old!r} else x for x in k)] = J.pop(k)')
+                    elif entry == 'sample_qubo':
+                        mut = f'for k in [k for k in Q if {old!r} in k]: Q[tuple({newv!r} if x == {old!r} else x for x in k)] = Q.pop(k)'
+                    else:
+                        mut = f'bqm.relabel_variables({{{old!r}: {newv!r}}}, inplace=True)'
+                else:
+                    newv = r.choice(free)
+                    nb = dy(r)
+                    lin[newv] = nb
+                    labels.append(newv)
+                    mut = {'sample_ising': f'h[{newv!r}] = {float(nb)!r}', 'sample_qubo': f'Q[({newv!r}, {newv!r})] = {float(nb)!r}',
+                           'sample': f'bqm.add_linear({newv!r}, {float(nb)!r})'}[entry]
+                lines.append(mut)
+                ctx.tick(f'history: in-place {kind} before call {step + 1}')
+                try:
+                    exec(mut, ns)
+                except Exception as e:  # noqa
+                    ctx.fail('property', 'history mutation', kind, f'{type(e).__name__}: {e}', repro=PRE + '\n'.join(lines) + '\n')
+                    break
+            lines.append('ss = ' + call)
+            prob = _HistProb(labels, lin, quad, off, spin)
+            site = stack_src.split('(')[0].replace('dimod.', '') + '.' + entry.split('-')[0]
+            cls = 'first call' if step == 0 else f'same sampler object, input mutated in place ({kind})'
+            ctx.tick(f'history: {entry} call {step + 1}')
+            ctx.case(('history', stack_src, entry, tuple(lines)), nontrivial=True)
+            try:
+                exec('ss = ' + call, ns)
+            except Exception as e:  # noqa
+                ctx.fail('property', site, cls, f'{type(e).__name__}: {e}', repro=PRE + '\n'.join(lines) + '\n')
+                break
+            ss = ns['ss']
+            if 'NullSampler' in stack_src:
+                if len(ss) != 0 or set(ss.variables) != set(labels):
+                    ctx.fail('property', site, cls, f'NullSampler returned {len(ss)} rows over {list(ss.variables)!r}',
+                             repro=PRE + '\n'.join(lines) + f'\nassert len(ss) == 0 and set(ss.variables) == set({labels!r})\n')
+                    break
+                continue
+            f = predicate(ss, prob, cls, exact=list(labels) if exact else None)
+            if f is not None:
+                ic, what, assertion = f
+                ctx.fail('property', site, cls if ic == cls else cls + ': ' + ic, what,
+                         repro=PRE + '\n'.join(lines) + '\n' + _hist_energy_src(prob) + assertion + '\n', detail=dict(history='\n'.join(lines)))
+                break
+    # ---- polynomial entry points: the polynomial / h, J objects mutated in place
+    for hi in range(ctx.scale(120, 2000)):
+        stack_src, exact, kwsrc = r.choice(HIST_POLY_STACKS[:5])
+        entry = r.choice(['sample_poly', 'sample_hising', 'sample_hubo'])
+        n = r.randint(1, 4)
+        labels = r.sample(labels_pool, n)
+        spin = entry == 'sample_hising' or (entry == 'sample_poly' and r.random() < .5)
+        terms = {}
+        for v in labels:
+            if r.random() < .8:
+                terms[(v,)] = dy(r)
+        for k in (2, 3):
+            for t in itertools.combinations(labels, k):
+                if r.random() < .4:
+                    terms[t] = dy(r)
+        if not terms:
+            terms[(labels[0],)] = F(1)
+        ns = {'dimod': dimod, 'np': np, 'F': F, 'BinaryPolynomial': BinaryPolynomial}
+        lines = [f'S = {stack_src}']
+        kws = (', ' + kwsrc) if kwsrc else ''
+        if entry == 'sample_poly':
+            lines.append(f'poly = BinaryPolynomial({ {t: float(b) for t, b in terms.items()}!r}, {"SPIN" if spin else "BINARY"!r})')
+            call = f'S.sample_poly(poly{kws})'
+        elif entry == 'sample_hising':
+            lines += [f'h = { {t[0]: float(b) for t, b in terms.items() if len(t) == 1}!r}', f'J = { {t: float(b) for t, b in terms.items() if len(t) > 1}!r}']
+            call = f'S.sample_hising(h, J{kws})'
+        else:
+            lines.append(f'H = { {t: float(b) for t, b in terms.items()}!r}')
+            call = f'S.sample_hubo(H{kws})'
+        try:
+            for ln in lines:
+                exec(ln, ns)
+        except Exception as e:  # noqa
+            ctx.fail('property', stack_src, 'construction', f'{type(e).__name__}: {e}', repro=PRE + '\n'.join(lines) + '\n')
+            continue
+        for step in range(r.choice([2, 3])):
+            if step:
+                t = r.choice(list(terms))
+                nb = terms[t] + r.choice([F(1), F(-3, 2), F(5, 8), F(-7)])
+                terms[t] = nb
+                if entry == 'sample_poly':
+                    mut = f'poly[{t!r}] = {float(nb)!r}'
+                elif entry == 'sample_hising':
+                    mut = f'h[{t[0]!r}] = {float(nb)!r}' if len(t) == 1 else f'J[{t!r}] = {float(nb)!r}'
+                else:
+                    mut = f'H[{t!r}] = {float(nb)!r}'
+                lines.append(mut)
+                ctx.tick(f'history: in-place term value before {entry} call {step + 1}')
+                exec(mut, ns)
+            lines.append('ss = ' + call)
+            site = stack_src.split('(')[0].replace('dimod.', '') + '.' + entry
+            cls = 'first call' if step == 0 else 'same sampler object, input mutated in place (term value)'
+            ctx.tick(f'history: {entry} call {step + 1}')
+            ctx.case(('history', stack_src, entry, tuple(lines)), nontrivial=True)
+            try:
+                exec('ss = ' + call, ns)
+            except Exception as e:  # noqa
+                ctx.fail('property', site, cls, f'{type(e).__name__}: {e}', repro=PRE + '\n'.join(lines) + '\n')
+                break
+            ss = ns['ss']
+            used = [v for v in labels if any(v in t for t in terms)]
+            what = None
+            if not set(used) <= set(ss.variables):
+                what = f'variables {list(ss.variables)!r} do not cover the polynomial\'s {used!r}'
+            else:
+                dom = (-1, 1) if spin else (0, 1)
+                for row, e in rows_of(ss):
+                    x = {v: F(int(row[v])) for v in used}
+                    w = F(0)
+                    for t, b in terms.items():
+                        pr = b
+                        for v in t:
+                            pr *= x[v]
+                        w += pr
+                    if any(x[v] not in dom for v in used):
+                        what = f'value outside the domain {dom} in {dict(row)}'
+                        break
+                    if e != w:
+                        what = f'row { {v: int(x[v]) for v in used} } reported with energy {e}, the submitted polynomial gives {w}'
+                        break
+                if what is None and exact and len(ss) != 2 ** len(set(ss.variables)):
+                    what = f'{len(ss)} rows for {len(set(ss.variables))} variables'
+            if what is not None:
+                ctx.fail('property', site, cls, what,
+                         repro=PRE + '\n'.join(lines) + f'\nTERMS = { {t: str(b) for t, b in terms.items()}!r}\n'
+                         'import math\nfor row, e in ss.data(["sample", "energy"], sorted_by=None):\n'
+                         '    w = sum(F(b) * math.prod(int(row[v]) for v in t) for t, b in TERMS.items())\n'
+                         '    assert F(float(e)) == w, (dict(row), e, w)\n', detail=dict(history='\n'.join(lines)))
+                break
+
 def run(ctx):
     r = ctx.rng
     ctx.rule = ('random small problems (0-5 variables over mixed labels in non-sorted order, dyadic biases, constants, both vartypes) x '
@@ -1437,6 +1684,7 @@ def run(ctx):
     section_dqm(ctx, r, corr)
     section_cqm(ctx, r, corr)
     section_round7(ctx, r, corr)
+    section_histories(ctx, r, corr)
     got = run_driver('enumdriver', corr.lines)
     ctx.corr_lines += len(corr.lines)
     for i, ln in enumerate(corr.lines):
